@@ -15,3 +15,5 @@ INVARIANT NormalisedAtMostOne
 INVARIANT NormalisedAttainsOne
 INVARIANT NormalisedOrderKept
 INVARIANT Emit
+PROPERTY CalculateKeepsArgument
+PROPERTY RecalculateIsStuttering
